@@ -231,6 +231,12 @@ func (w *fragmentingWriter) Write(b []byte) (int, error) {
 
 // Flush flushes the current fragment, and starts a new fragment and chunk.
 func (w *fragmentingWriter) Flush() error {
+	if w.err != nil {
+		// The writer has failed (like Write, Close and BeginArgument, report that);
+		// there may be no current fragment any more.
+		return w.err
+	}
+
 	w.curChunk.finish()
 	w.curFragment.finish(true)
 	if w.err = w.sender.flushFragment(w.curFragment); w.err != nil {
